@@ -122,7 +122,7 @@ fn cred_row(case: &Value, w: &World) -> Vec<(String, Value, Value)> {
   let verdict = s(&case["out"]["verdict"]);
   match (&res, verdict) {
     (Ok(_), "reject") => diffs.push(("accepted_unbound".into(), json!("rejected"), json!({"accepted_with_disclosures": disclosures.len()}))),
-    (Err(e), "accept") => diffs.push(("rejected_although_bound".into(), json!("accepted"), json!(e.to_string()))),
+    (Err(e), "accept") => diffs.push(("~rejected_although_bound".into(), json!("accepted"), json!(e.to_string()))),
     _ => {}
   }
   if let (Ok(d), true) = (&res, verdict != "reject") {
@@ -213,7 +213,7 @@ fn kb_row(case: &Value, w: &World) -> Vec<(String, Value, Value)> {
   let accept = s(&case["out"]["verdict"]) == "accept";
   match (res, accept) {
     (Ok(_), false) => diffs.push(("kb_accepted_unbound".into(), json!("error"), json!("accepted"))),
-    (Err(e), true) => diffs.push(("kb_rejected_although_bound".into(), json!("accepted"), json!(e.to_string()))),
+    (Err(e), true) => diffs.push(("~kb_rejected_although_bound".into(), json!("accepted"), json!(e.to_string()))),
     (Ok(c), true) => {
       if c.nonce != "nonce-1" || c.aud != "did:example:verifier" || c.iat != iat {
         diffs.push(("kb_claims".into(), json!("the signed claims"), json!({"nonce": c.nonce, "aud": c.aud, "iat": c.iat})));
